@@ -192,6 +192,13 @@ func vfLkStep(oracle int, nops int) {
 	if H > 0 {
 		W = vfChoice("W", maxW)
 	}
+	// C02 only: a free key with one queued request (it carries the wait-when-unlocked flag): the
+	// cancel-wait clause and "a refused unlock changes nothing" on a key nobody holds
+	vfFreeWaiter = false
+	if H == 0 && oracle == vfOC02 && vfChoice("freeWaiter", 2) == 1 {
+		vfFreeWaiter = true
+		W = 1
+	}
 	op := vfChoice("op", nops)
 	// a clock step comes in two shapes: the holders expire first (E=3) and the queue is served, or the
 	// holders stay (E=100) and the queued requests time out one after the other (T=4, then T=9)
@@ -336,7 +343,24 @@ func vfOracleC02(env *vfEnv, pre, post *vfSnap, op int, cmd *protocol.LockComman
 		}
 		// not a holder
 		if len(pre.holders) == 0 {
-			vfAssert(own.result == protocol.RESULT_UNLOCK_ERROR || (flag&0x02 != 0 && own.result == protocol.RESULT_LOCKED_ERROR), "C02: unlock of a key that is not held must be UNLOCK_ERROR")
+			if wi0 := pre.waiterById(lid); flag&0x02 != 0 && wi0 >= 0 {
+				vfReach("cancel-wait-free-key")
+				vfAssert(own.result == protocol.RESULT_LOCKED_ERROR, "C02: canceller must be answered LOCKED_ERROR (key without holders)")
+				w := pre.waiters[wi0]
+				vfAssert(post.waiterByPtr(w.l) < 0, "C02: cancelled request is still queued (key without holders)")
+				n := 0
+				for _, r := range replies {
+					if r.reqId == w.reqId {
+						n++
+						vfAssert(r.result == protocol.RESULT_UNLOCK_ERROR, "C02: cancelled request must be answered UNLOCK_ERROR")
+					}
+				}
+				vfAssert(n == 1, "C02: cancelled request not answered exactly once")
+				return
+			}
+			vfAssert(own.result == protocol.RESULT_UNLOCK_ERROR, "C02: unlock of a key that is not held must be UNLOCK_ERROR")
+			vfAssert(vfUnchanged(pre, post), "C02: a refused unlock of a key that is not held changed the key's state")
+			vfAssert(len(replies) == 1, "C02: a refused unlock of a key that is not held produced other replies")
 			return
 		}
 		if flag&0x01 != 0 {
@@ -614,6 +638,9 @@ func vfC04Quiescent(env *vfEnv, m *LockManager, pre, post *vfSnap) {
 }
 
 var vfLockFlag uint8
+
+// vfFreeWaiter: the queued requests of the pre-state carry the wait-when-unlocked flag (free key).
+var vfFreeWaiter bool
 
 // ---------------------------------------------------------------------------
 // C17: counts.
